@@ -58,8 +58,15 @@ def gen_case(seed: int, tier: str, index: int) -> Dict[str, Any]:
             per_bcast.append(delays)
         responders.append({"ip": f"10.0.0.{20 + i}", "ident": ident, "name": name, "replies": per_bcast})
     filt = rng.choice(["none", "none", "ident", "ident_absent", "address", "address+ident", "address_wrong_ident", "address_nobody"])
+    more = []
+    if rng.random() < 0.4:
+        for _ in range(rng.choice([1, 1, 2])):
+            more.append({"filter": rng.choice(["none", "ident", "address", "address+ident", "ident_absent"]), "pick": rng.randrange(100),
+                         "gap": rng.choice([0.0, 0.3, 2.0])})
+        for spec in responders:
+            spec["replies"] = spec["replies"] * (1 + len(more)) + [[0.01]] * 4
     cfg = {"profile": profile, "net": net, "loop": loop_cfg, "tables": tables, "initial": initial, "timeout": timeout,
-           "use_real": use_real, "filter": filt, "pick": rng.randrange(100)}
+           "use_real": use_real, "filter": filt, "pick": rng.randrange(100), "more_rounds": more}
     return {"property": PROP, "world": "A", "seed": seed, "cfg": cfg, "plan": responders}
 
 
@@ -110,153 +117,162 @@ async def scenario(world: WorldA) -> None:
         peer = SpaPeer(world.loop, world.net, None, ip=SPA_IP, name=SPA_NAME)
         world.peers.append(peer)
         everyone.append((SPA_IP, SPA_ID.encode(), SPA_NAME))
-    # filter
-    f = cfg["filter"]
-    target = everyone[cfg["pick"] % len(everyone)] if everyone else None
-    kw: Dict[str, Optional[str]] = {}
-    if f in ("ident", "address+ident") and target:
-        kw["spa_identifier"] = target[1].decode("latin1")
-    if f in ("ident_absent", "address_wrong_ident"):
-        kw["spa_identifier"] = "SPA99:99:99:99:99:99"
-    if f in ("address", "address+ident", "address_wrong_ident") and target:
-        kw["spa_address"] = target[0]
-    if f == "address_nobody":
-        kw["spa_address"] = "10.0.0.250"
-    events: List[Any] = []
+    rounds = [{"filter": cfg["filter"], "pick": cfg["pick"], "gap": 0.0}] + list(cfg.get("more_rounds", []))
+    taskman = None
+    for ri, rnd in enumerate(rounds):
+        f, pick = rnd["filter"], rnd["pick"]
+        if rnd["gap"]:
+            await asyncio.sleep(rnd["gap"])
+        if ri > 0:
+            res.probe("second_discovery_in_one_process")
+        world.loop.stalls_on = True
+        # filter
+        target = everyone[pick % len(everyone)] if everyone else None
+        kw: Dict[str, Optional[str]] = {}
+        if f in ("ident", "address+ident") and target:
+            kw["spa_identifier"] = target[1].decode("latin1")
+        if f in ("ident_absent", "address_wrong_ident"):
+            kw["spa_identifier"] = "SPA99:99:99:99:99:99"
+        if f in ("address", "address+ident", "address_wrong_ident") and target:
+            kw["spa_address"] = target[0]
+        if f == "address_nobody":
+            kw["spa_address"] = "10.0.0.250"
+        events: List[Any] = []
 
-    async def on_event(event, **kwargs):
-        events.append((world.now(), event, kwargs))
+        async def on_event(event, **kwargs):
+            events.append((world.now(), event, kwargs))
 
-    taskman = AsyncTasks()
-    locator = GeckoAsyncLocator(taskman, on_event, **kw)
-    n_ep = len(world.loop.transports)
-    S = world.now()
-    stall0 = world.clock.stall_total_ns
-    try:
-        await locator.discover()
-    except asyncio.CancelledError:
-        raise
-    except Exception as e:
-        world.violate(PROP, "discover-raised", f"discover() raised {type(e).__name__}: {e}")
-    T_ret = world.now()
-    stall = (world.clock.stall_total_ns - stall0) / 1e9
-    listed = list(locator.spas or [])
-    tr = world.loop.transports[n_ep] if len(world.loop.transports) > n_ep else None
-    if tr is None:
-        raise HarnessError("discover() opened no endpoint")
-    closed_on_return = tr.close_called > 0
-    await asyncio.sleep(0)
-    loc_tasks = [t.get_name() for t in library_tasks() if t.get_name().startswith("LOC:")]
-    world.loop.stalls_on = False
+        taskman = AsyncTasks()
+        locator = GeckoAsyncLocator(taskman, on_event, **kw)
+        n_ep = len(world.loop.transports)
+        S = world.now()
+        stall0 = world.clock.stall_total_ns
+        try:
+            await locator.discover()
+        except asyncio.CancelledError:
+            raise
+        except Exception as e:
+            world.violate(PROP, "discover-raised", f"discover() raised {type(e).__name__}: {e}")
+        T_ret = world.now()
+        stall = (world.clock.stall_total_ns - stall0) / 1e9
+        listed = list(locator.spas or [])
+        tr = world.loop.transports[n_ep] if len(world.loop.transports) > n_ep else None
+        if tr is None:
+            raise HarnessError("discover() opened no endpoint")
+        closed_on_return = tr.close_called > 0
+        await asyncio.sleep(0)
+        loc_tasks = [t.get_name() for t in library_tasks() if t.get_name().startswith("LOC:")]
+        world.loop.stalls_on = False
 
-    # ---- oracle -----------------------------------------------------------------------------------------
-    initial, timeout = cfg["initial"], cfg["timeout"]
-    ident_filter = kw.get("spa_identifier")
-    addr_filter = kw.get("spa_address")
-    has_filter = ident_filter is not None or addr_filter is not None
+        # ---- oracle -----------------------------------------------------------------------------------------
+        initial, timeout = cfg["initial"], cfg["timeout"]
+        ident_filter = kw.get("spa_identifier")
+        addr_filter = kw.get("spa_address")
+        has_filter = ident_filter is not None or addr_filter is not None
 
-    def passes(ip: str, ident: bytes) -> bool:
-        if addr_filter is not None and ip != addr_filter:
-            return False      # a static address means only that host is asked
-        if ident_filter is not None and ident.decode("latin1") != ident_filter:
-            return False
-        return True
+        def passes(ip: str, ident: bytes) -> bool:
+            if addr_filter is not None and ip != addr_filter:
+                return False      # a static address means only that host is asked
+            if ident_filter is not None and ident.decode("latin1") != ident_filter:
+                return False
+            return True
 
-    # arrivals of hello replies at the locator's endpoint, in order
-    arrivals: List[Tuple[float, Tuple[str, int], bytes]] = []
-    for r in world.net.history:
-        if r.dst == tr.local and r.verb == "HELLO":
-            for es, t in r.deliveries:
-                arrivals.append((t, r.src, r.data))
-    arrivals.sort(key=lambda x: x[0])
-    # when could the hello consumer have handled each one (it takes one per polling interval)
-    h_prev = S
-    handled_by: List[float] = []
-    for (t, src, data) in arrivals:
-        h = max(t, h_prev) + P
-        handled_by.append(h)
-        h_prev = h
-    first_by_ident: Dict[bytes, Tuple[float, float, Tuple[str, int]]] = {}
-    who = {ip: (ident, name) for ip, ident, name in everyone}
-    for (t, src, data), h in zip(arrivals, handled_by):
-        ident = who[src[0]][0]
-        if ident not in first_by_ident:
-            first_by_ident[ident] = (t, h, src)
-    ctx = f"filter={f} kw={kw} initial={initial} timeout={timeout} S={S:.3f} T_ret={T_ret:.3f} stall={stall:.3f}"
+        # arrivals of hello replies at the locator's endpoint, in order
+        arrivals: List[Tuple[float, Tuple[str, int], bytes]] = []
+        for r in world.net.history:
+            if r.dst == tr.local and r.verb == "HELLO":
+                for es, t in r.deliveries:
+                    arrivals.append((t, r.src, r.data))
+        arrivals.sort(key=lambda x: x[0])
+        # when could the hello consumer have handled each one (it takes one per polling interval)
+        h_prev = S
+        handled_by: List[float] = []
+        for (t, src, data) in arrivals:
+            h = max(t, h_prev) + P
+            handled_by.append(h)
+            h_prev = h
+        first_by_ident: Dict[bytes, Tuple[float, float, Tuple[str, int]]] = {}
+        who = {ip: (ident, name) for ip, ident, name in everyone}
+        for (t, src, data), h in zip(arrivals, handled_by):
+            ident = who[src[0]][0]
+            if ident not in first_by_ident:
+                first_by_ident[ident] = (t, h, src)
+        ctx = f"round={ri} filter={f} kw={kw} initial={initial} timeout={timeout} S={S:.3f} T_ret={T_ret:.3f} stall={stall:.3f}"
 
-    listed_ids = [d.identifier for d in listed]
-    if len(set(listed_ids)) != len(listed_ids):
-        world.violate(PROP, "listed-twice", f"a spa is listed more than once: {listed_ids} ({ctx})")
-    for d in listed:
-        src = next(((ip, ident, name) for ip, ident, name in everyone if ident == d.identifier), None)
-        if src is None:
-            world.violate(PROP, "phantom-spa", f"listed identifier {d.identifier!r} belongs to no responder ({ctx})")
-        ip, ident, name = src
-        if not passes(ip, ident):
-            world.violate(PROP, "filter-ignored", f"listed {ident!r} at {ip}, which the filter excludes ({ctx})")
-        if ident not in first_by_ident or first_by_ident[ident][0] > T_ret:
-            world.violate(PROP, "phantom-spa", f"listed {ident!r} but no reply of it had arrived by the time discovery returned ({ctx})")
-        if d.name != name:
-            world.violate(PROP, "name-mangled", f"spa {ident!r} listed with name {d.name!r}, it sent {name!r} ({ctx})")
-        if tuple(d.destination) != (ip, SPA_PORT):
-            world.violate(PROP, "address-mangled", f"spa {ident!r} listed at {d.destination}, it answered from {(ip, SPA_PORT)} ({ctx})")
-    must = [ident for ident, (t, h, src) in first_by_ident.items()
-            if passes(src[0], ident) and h + P + stall <= T_ret]
-    for ident in must:
-        if ident not in listed_ids:
-            t, h, src = first_by_ident[ident]
-            name = who[src[0]][1]
-            sig = "missing-spa:name-with-separator" if "|" in name else "missing-spa"
-            world.violate(PROP, "missing-spa", f"spa {ident!r} (name {name!r}) answered at {t:.3f} (handled by {h:.3f}) but is "
-                          f"not listed ({ctx})", sig=sig)
-    # ---- termination ------------------------------------------------------------------------------------
-    if T_ret > S + timeout + 2 * P + stall:
-        world.violate(PROP, "overran-timeout", f"discovery returned {T_ret - S:.3f}s after start, timeout {timeout}s ({ctx})")
-    matching = [(t, h) for ident, (t, h, src) in first_by_ident.items() if passes(src[0], ident)]
-    if has_filter and matching:
-        h0 = min(h for t, h in matching)
-        if h0 + 2 * P + stall < T_ret and T_ret > S + 0:
-            # the requested spa had answered and been handled, yet discovery kept waiting
-            if T_ret - (h0 + 2 * P + stall) > 1e-6:
-                world.violate(PROP, "late-return-found", f"requested spa was handled by {h0:.3f} but discovery returned at {T_ret:.3f} ({ctx})")
-        res.probe("returned_on_requested_spa")
-    elif not has_filter and matching:
-        h0 = min(h for t, h in matching)
-        lim = max(S + initial, h0) + 2 * P + stall
-        if T_ret > lim + 1e-6:
-            world.violate(PROP, "late-return-any", f"a spa had answered by {h0:.3f}, initial wait ends {S + initial:.3f}, but discovery returned at {T_ret:.3f} ({ctx})")
-        if listed and T_ret < S + initial - 1e-6:
-            world.violate(PROP, "early-return", f"discovery without a filter returned after {T_ret - S:.3f}s, before the initial wait of {initial}s ({ctx})")
-    if not listed and not must and T_ret < S + timeout - 1e-6 and not matching:
-        world.violate(PROP, "early-return", f"nothing had answered but discovery returned after {T_ret - S:.3f}s, timeout {timeout}s ({ctx})")
-    # ---- cleanup -----------------------------------------------------------------------------------------
-    if not closed_on_return:
-        world.violate(PROP, "endpoint-left-open", f"discover() returned without closing its endpoint ({ctx})")
-    if loc_tasks:
-        world.violate(PROP, "helper-task-left", f"LOC tasks still alive after return: {loc_tasks} ({ctx})")
-    n_disc = sum(1 for _, e, _ in events if e == GeckoSpaEvent.LOCATING_DISCOVERED_SPA)
-    if n_disc != len(listed):
-        world.violate(PROP, "event-count", f"{n_disc} discovered events for {len(listed)} listed spas ({ctx})")
-    # probes
-    if any("|" in name for _, _, name in everyone):
-        res.probe("name_with_separator")
-    if len(arrivals) > len(first_by_ident):
-        res.probe("duplicate_replies")
-    if any(t > T_ret for t, _, _ in arrivals) or any(rec.dst == tr.local and rec.verb == "HELLO" and not rec.deliveries and rec.fate == "ok"
-                                                      for rec in world.net.history):
-        res.probe("reply_after_return")
-    if not listed:
-        res.probe("nothing_listed")
-    if len(listed) >= 3:
-        res.probe("three_or_more_listed")
-    res.nontrivial = len(arrivals) > 0 or not everyone
-    res.shape = format(mix(0, repr((f, len(listed), len(arrivals), round(T_ret - S, 1)))), "x")
-    res.sample = {"profile": cfg["profile"], "filter": f, "responders": [(s["ident"], s["name"]) for s in specs][:4],
-                  "listed": [d.identifier_as_string for d in listed], "returned_after": round(T_ret - S, 3)}
+        listed_ids = [d.identifier for d in listed]
+        if len(set(listed_ids)) != len(listed_ids):
+            world.violate(PROP, "listed-twice", f"a spa is listed more than once: {listed_ids} ({ctx})")
+        for d in listed:
+            src = next(((ip, ident, name) for ip, ident, name in everyone if ident == d.identifier), None)
+            if src is None:
+                world.violate(PROP, "phantom-spa", f"listed identifier {d.identifier!r} belongs to no responder ({ctx})")
+            ip, ident, name = src
+            if not passes(ip, ident):
+                world.violate(PROP, "filter-ignored", f"listed {ident!r} at {ip}, which the filter excludes ({ctx})")
+            if ident not in first_by_ident or first_by_ident[ident][0] > T_ret:
+                world.violate(PROP, "phantom-spa", f"listed {ident!r} but no reply of it had arrived by the time discovery returned ({ctx})")
+            if d.name != name:
+                world.violate(PROP, "name-mangled", f"spa {ident!r} listed with name {d.name!r}, it sent {name!r} ({ctx})")
+            if tuple(d.destination) != (ip, SPA_PORT):
+                world.violate(PROP, "address-mangled", f"spa {ident!r} listed at {d.destination}, it answered from {(ip, SPA_PORT)} ({ctx})")
+        must = [ident for ident, (t, h, src) in first_by_ident.items()
+                if passes(src[0], ident) and h + P + stall <= T_ret]
+        for ident in must:
+            if ident not in listed_ids:
+                t, h, src = first_by_ident[ident]
+                name = who[src[0]][1]
+                sig = "missing-spa:name-with-separator" if "|" in name else "missing-spa"
+                world.violate(PROP, "missing-spa", f"spa {ident!r} (name {name!r}) answered at {t:.3f} (handled by {h:.3f}) but is "
+                              f"not listed ({ctx})", sig=sig)
+        # ---- termination ------------------------------------------------------------------------------------
+        if T_ret > S + timeout + 2 * P + stall:
+            world.violate(PROP, "overran-timeout", f"discovery returned {T_ret - S:.3f}s after start, timeout {timeout}s ({ctx})")
+        matching = [(t, h) for ident, (t, h, src) in first_by_ident.items() if passes(src[0], ident)]
+        if has_filter and matching:
+            h0 = min(h for t, h in matching)
+            if h0 + 2 * P + stall < T_ret and T_ret > S + 0:
+                # the requested spa had answered and been handled, yet discovery kept waiting
+                if T_ret - (h0 + 2 * P + stall) > 1e-6:
+                    world.violate(PROP, "late-return-found", f"requested spa was handled by {h0:.3f} but discovery returned at {T_ret:.3f} ({ctx})")
+            res.probe("returned_on_requested_spa")
+        elif not has_filter and matching:
+            h0 = min(h for t, h in matching)
+            lim = max(S + initial, h0) + 2 * P + stall
+            if T_ret > lim + 1e-6:
+                world.violate(PROP, "late-return-any", f"a spa had answered by {h0:.3f}, initial wait ends {S + initial:.3f}, but discovery returned at {T_ret:.3f} ({ctx})")
+            if listed and T_ret < S + initial - 1e-6:
+                world.violate(PROP, "early-return", f"discovery without a filter returned after {T_ret - S:.3f}s, before the initial wait of {initial}s ({ctx})")
+        if not listed and not must and T_ret < S + timeout - 1e-6 and not matching:
+            world.violate(PROP, "early-return", f"nothing had answered but discovery returned after {T_ret - S:.3f}s, timeout {timeout}s ({ctx})")
+        # ---- cleanup -----------------------------------------------------------------------------------------
+        if not closed_on_return:
+            world.violate(PROP, "endpoint-left-open", f"discover() returned without closing its endpoint ({ctx})")
+        if loc_tasks:
+            world.violate(PROP, "helper-task-left", f"LOC tasks still alive after return: {loc_tasks} ({ctx})")
+        n_disc = sum(1 for _, e, _ in events if e == GeckoSpaEvent.LOCATING_DISCOVERED_SPA)
+        if n_disc != len(listed):
+            world.violate(PROP, "event-count", f"{n_disc} discovered events for {len(listed)} listed spas ({ctx})")
+        # probes
+        if any("|" in name for _, _, name in everyone):
+            res.probe("name_with_separator")
+        if len(arrivals) > len(first_by_ident):
+            res.probe("duplicate_replies")
+        if any(t > T_ret for t, _, _ in arrivals) or any(rec.dst == tr.local and rec.verb == "HELLO" and not rec.deliveries and rec.fate == "ok"
+                                                          for rec in world.net.history):
+            res.probe("reply_after_return")
+        if not listed:
+            res.probe("nothing_listed")
+        if len(listed) >= 3:
+            res.probe("three_or_more_listed")
+        res.nontrivial = len(arrivals) > 0 or not everyone
+        res.shape = format(mix(0, repr((f, len(listed), len(arrivals), round(T_ret - S, 1)))), "x")
+        res.sample = {"profile": cfg["profile"], "filter": f, "responders": [(s["ident"], s["name"]) for s in specs][:4],
+                      "listed": [d.identifier_as_string for d in listed], "returned_after": round(T_ret - S, 3)}
     # let late replies reach the closed endpoint, cancel helper tasks
     await asyncio.sleep(1.0)
-    for t in taskman._tasks:
-        t.cancel()
+    if taskman is not None:
+        for t in taskman._tasks:
+            t.cancel()
 
 
 def run_case(case: Dict[str, Any], replay: Optional[Dict[str, Any]] = None, keep_log: bool = False) -> RunResult:
@@ -282,7 +298,7 @@ ASSUMPTIONS = [
     "the hello consumer takes one queued reply per polling interval; 'answered by the time of return' allows that service time",
     "two spas never share an identifier",
 ]
-PROBES = ["name_with_separator", "duplicate_replies", "reply_after_return", "nothing_listed", "three_or_more_listed", "returned_on_requested_spa"]
+PROBES = ["second_discovery_in_one_process", "name_with_separator", "duplicate_replies", "reply_after_return", "nothing_listed", "three_or_more_listed", "returned_on_requested_spa"]
 N_QUICK = 60000
 
 
